@@ -689,7 +689,7 @@ class Machine(object):
           spec = dict(spec, huge=False)
         arg, info = _dyadic_probe(arg, D, t, spec)
         self._last_probe_info = info
-        if spec.get("f32") and not spec.get("far"):
+        if spec.get("f32") and not spec.get("far") and not info.get("int64_far"):
           # the same tuples in single precision (grid points are exact in both)
           a32 = arg.astype(np.float32)
           if np.array_equal(a32.astype(float), arg):
@@ -1088,6 +1088,14 @@ def _dyadic_probe(arg, D, t, spec):
     u = np.sign(rs.randn(arg.shape[-1])) * 2.0 ** 700
     arg[huge_row, -1] = arg[huge_row, -1] + u       # b (pairs), c (triplets), d (quadruplets)
     ties = [i for i in ties if i != huge_row and not (t == 2 and i + 1 == huge_row)]
+  if spec.get("int64_far") and not far and huge_row is None:
+    # the same grid tuples as whole numbers (grid units) in int64, every tuple moved by its own
+    # offset beyond 2**53 (absolute nanosecond time stamps): differences inside a tuple are small
+    # and exact in integer arithmetic, but not after a conversion of the coordinates to float64
+    argi = np.round(arg / step).astype(np.int64)
+    for i in range(m):
+      argi[i] += np.int64(2 ** 58) + rs.randint(0, 2 ** 40, size=arg.shape[-1]).astype(np.int64) * 257
+    return argi, dict(ties=ties, far=0, step=1.0, huge_row=None, int64_far=True)
   return arg, dict(ties=ties, far=int(far or 0), step=step, huge_row=huge_row)
 
 
